@@ -78,4 +78,17 @@ theorem C02_unloadable_link_never_skipped (w : World) (l : Layout) (dir : Str)
     ∃ e, loadLinksForLayout w l dir = .error e :=
   loadLinksSteps_error_of_unloadable w l dir l.steps [] h
 
+/-- The premise is met by any file that is present and is not JSON at all (`some none` in the world's file table). -/
+theorem loadFile_not_json (w : World) (p : Str) (h : Dict.get? w.files p = some none) :
+    loadFile w p = some (.error .other) := by
+  unfold loadFile
+  rw [h]
+
+/-- The instance for text that is not JSON. -/
+theorem C02_not_json_link_never_skipped (w : World) (l : Layout) (dir : Str) (st : Step) (n k : Str)
+    (hst : st ∈ l.steps) (hn : nameOf st.name = .ok n) (hk : k ∈ candidateIds l st)
+    (hfile : Dict.get? w.files (pathJoin dir (linkFileName n k)) = some none) :
+    ∃ e, loadLinksForLayout w l dir = .error e :=
+  C02_unloadable_link_never_skipped w l dir ⟨st, hst, n, hn, k, hk, .other, loadFile_not_json w _ hfile⟩
+
 end InToto
